@@ -22,6 +22,8 @@
     generic evaluator `exec` over a `Machine` (the primitive functions of this file); slot
     bodies are scripts (`Prog`) indexed by (listener, slot, invocation number).  The
     evaluator takes fuel; every theorem is for all fuel.
+  * A `SignalActivation` constructed while the emitter has no data for the signal is inert
+    (`data = 0`: constructor, loop and destructor touch nothing); the model pushes no frame for it.
   * The iterator of the emission loop is an index into the slot list.  (Entries are never
     unlinked while an activation of that signal exists, so an index denotes the same node
     for the whole emission.)  Skipping non-`connected` entries between two invocations
@@ -73,7 +75,7 @@ structure Listener where
 structure Frame where
   next : Option Nat
   invalidated : Bool
-  data : Option (Nat × Nat)
+  data : Nat × Nat
   deriving Repr, Inhabited
 
 structure State where
@@ -83,11 +85,6 @@ structure State where
   nextNode : Nat
   fault : Bool
 
-/-- the emission loop's position: the activation and the iterator `i` -/
-structure Cursor where
-  fid : Nat
-  idx : Nat
-  deriving Repr, Inhabited
 
 /-! ### small helpers -/
 
@@ -224,19 +221,22 @@ def delEmitter (e : Nat) (st : State) : State :=
   | none => st.faulted
   | some em => (em.sigKeys.foldl (delEmitterSig e em) st).setEmitter e none
 
-/-! ### `SignalActivation::SignalActivation` (Callback.cpp:32-48) -/
+/-! ### `SignalActivation::SignalActivation` (Callback.cpp:32-48)
 
-def actBegin (e g : Nat) (st : State) : State × Cursor :=
-  let fid := st.frames.length
+  Returns the activation (its frame id) and the iterator `begin` (index 0).  When the emitter
+  has no data for the signal the C++ object is inert (`data = 0`, `next = 0`, `begin == end`:
+  constructor, loop and destructor touch nothing): no frame is pushed and `none` is returned. -/
+
+def actBegin (e g : Nat) (st : State) : State × Option (Nat × Nat) :=
   match st.emitters e with
-  | none => (st.faulted, ⟨fid, 0⟩)
+  | none => (st.faulted, none)
   | some em =>
     match em.sig g with
-    | none =>
-      ({ st with frames := st.frames ++ [({ next := none, invalidated := false, data := none } : Frame)] }, ⟨fid, 0⟩)
+    | none => (st, none)
     | some d =>
-      let st1 : State := { st with frames := st.frames ++ [({ next := d.activation, invalidated := false, data := some (e, g) } : Frame)] }
-      (st1.setEmitter e (some (em.setSig g { d with activation := some fid })), ⟨fid, 0⟩)
+      let fid := st.frames.length
+      let st1 : State := { st with frames := st.frames ++ [({ next := d.activation, invalidated := false, data := (e, g) } : Frame)] }
+      (st1.setEmitter e (some (em.setSig g { d with activation := some fid })), some (fid, 0))
 
 /-! ### the loop of `emit` between two invocations (Callback.hpp:42-43) -/
 
@@ -248,26 +248,24 @@ def nextConnectedAux : List Slot → Nat → Option (Nat × Slot)
 def nextConnected (slots : List Slot) (i : Nat) : Option (Nat × Slot) :=
   nextConnectedAux (slots.drop i) i
 
-inductive Step (κ : Type) where
+inductive Step (π : Type) where
   | done
-  | call (l s : Nat) (k : κ)
+  | call (l s : Nat) (p : π)
   | fault
 
-def next (st : State) (k : Cursor) : Step Cursor :=
-  match st.frames[k.fid]? with
+/-- from iterator position `idx` of activation `fid`: the next slot to invoke -/
+def next (st : State) (fid idx : Nat) : Step Nat :=
+  match st.frames[fid]? with
   | none => .fault
   | some f =>
     if f.invalidated then .done                  -- `if(activation.invalidated) return;`
     else
-      match f.data with
-      | none => .done                            -- `begin == end` (no signal data at construction)
-      | some (e, g) =>
-        match st.data e g with
-        | none => .fault                         -- the slot list is gone
-        | some d =>
-          match nextConnected d.slots k.idx with
-          | none => .done
-          | some (j, sl) => .call sl.object sl.slot ⟨k.fid, j + 1⟩
+      match st.data f.data.1 f.data.2 with
+      | none => .fault                           -- the slot list is gone
+      | some d =>
+        match nextConnected d.slots idx with
+        | none => .done
+        | some (j, sl) => .call sl.object sl.slot (j + 1)
 
 /-! ### `SignalActivation::~SignalActivation` (Callback.cpp:50-72) -/
 
@@ -280,24 +278,21 @@ def purge : List Slot → List Slot
     | .connecting => { x with state := .connected } :: purge xs
     | .connected => x :: purge xs
 
-def actEnd (k : Cursor) (st : State) : State :=
-  match st.frames[k.fid]? with
+def actEnd (fid : Nat) (st : State) : State :=
+  match st.frames[fid]? with
   | none => st.faulted
   | some f =>
-    let st0 := { st with frames := st.frames.take k.fid }
+    let st0 : State := { st with frames := st.frames.take fid }
     if !f.invalidated then
-      match f.data with
-      | none => st0
-      | some (e, g) =>
-        match st0.emitters e with
+      match st0.emitters f.data.1 with
+      | none => st0.faulted
+      | some em =>
+        match em.sig f.data.2 with
         | none => st0.faulted
-        | some em =>
-          match em.sig g with
-          | none => st0.faulted
-          | some d =>
-            let d1 := { d with activation := f.next }
-            let d2 := if f.next.isNone && d.dirty then { d1 with slots := purge d.slots, dirty := false } else d1
-            st0.setEmitter e (some (em.setSig g d2))
+        | some d =>
+          let d1 : SignalData := { d with activation := f.next }
+          let d2 : SignalData := if f.next.isNone && d.dirty then { d1 with slots := purge d.slots, dirty := false } else d1
+          st0.setEmitter f.data.1 (some (em.setSig f.data.2 d2))
     else
       match f.next with
       | some n => invalidate st0 n
@@ -318,19 +313,20 @@ structure Prog where
   script : Nat → Nat → Nat → List Action
 
 /-- the primitive operations an emission/program evaluator needs; implemented by the model
-    of Callback.cpp (`machine` below) and by the specification (Spec.lean) -/
-structure Machine (σ κ : Type) where
+    of Callback.cpp (`machine` below) and by the specification (Spec.lean).  `α` identifies an
+    emission in progress (the activation), `π` is the position of its loop. -/
+structure Machine (σ α π : Type) where
   connect : Nat → Nat → Nat → Nat → σ → σ
   disconnect : Nat → Nat → Nat → Nat → σ → σ
   delL : Nat → σ → σ
   delE : Nat → σ → σ
   aliveE : σ → Nat → Bool
   aliveL : σ → Nat → Bool
-  begin : Nat → Nat → σ → σ × κ
-  next : σ → κ → Step κ
-  finish : κ → σ → σ
+  begin : Nat → Nat → σ → σ × Option (α × π)
+  next : σ → α → π → Step π
+  finish : α → σ → σ
 
-def machine : Machine State Cursor where
+def machine : Machine State Nat Nat where
   connect := connect
   disconnect := disconnect
   delL := delListener
@@ -350,42 +346,50 @@ structure Run (σ : Type) where
   bad : Bool
   oof : Bool
 
-inductive Task (κ : Type) where
+inductive Task (α π : Type) where
   | acts (as : List Action)
-  | loop (k : κ)
+  | loop (a : α) (p : π)
 
-/-- The harness's `doAct` (guards: the objects named by the action still exist), the
-    `emit` template and the slot bodies.  `.loop k` is the `for` loop of `emit` from
-    position `k`; `.acts` a script. -/
-def exec {σ κ : Type} (M : Machine σ κ) (P : Prog) : Nat → Run σ → Task κ → Run σ
+/-- one action that is not an emission (harness `doAct`; guards: the objects named by the
+    action still exist) -/
+def Run.prim {σ α π : Type} (M : Machine σ α π) (r : Run σ) : Action → Run σ
+  | .connect e g l s =>
+    if M.aliveE r.m e && M.aliveL r.m l then { r with m := M.connect e g l s r.m } else r
+  | .disconnect e g l s =>
+    if M.aliveE r.m e && M.aliveL r.m l then { r with m := M.disconnect e g l s r.m } else r
+  | .delL l => if M.aliveL r.m l then { r with m := M.delL l r.m } else r
+  | .delE e => if M.aliveE r.m e then { r with m := M.delE e r.m } else r
+  | .emit _ _ => r
+
+/-- the harness's slot body prologue: log the invocation, count it -/
+def Run.enter {σ : Type} (r : Run σ) (l s : Nat) : Run σ :=
+  { r with inv := fun l' s' => if l' = l ∧ s' = s then r.inv l s + 1 else r.inv l' s',
+           log := (l, s) :: r.log }
+
+/-- The harness's `doAct`, the `emit` template and the slot bodies.  `.loop a p` is the `for`
+    loop of `emit` of activation `a` from position `p`; `.acts` a script. -/
+def exec {σ α π : Type} (M : Machine σ α π) (P : Prog) : Nat → Run σ → Task α π → Run σ
   | 0, r, _ => { r with oof := true }
   | _ + 1, r, .acts [] => r
-  | n + 1, r, .acts (a :: as) =>
+  | n + 1, r, .acts (.emit e g :: as) =>
     let r1 : Run σ :=
-      match a with
-      | .connect e g l s =>
-        if M.aliveE r.m e && M.aliveL r.m l then { r with m := M.connect e g l s r.m } else r
-      | .disconnect e g l s =>
-        if M.aliveE r.m e && M.aliveL r.m l then { r with m := M.disconnect e g l s r.m } else r
-      | .delL l => if M.aliveL r.m l then { r with m := M.delL l r.m } else r
-      | .delE e => if M.aliveE r.m e then { r with m := M.delE e r.m } else r
-      | .emit e g =>
-        if M.aliveE r.m e then
-          let b := M.begin e g r.m
-          let r2 := exec M P n { r with m := b.1 } (.loop b.2)
-          { r2 with m := M.finish b.2 r2.m }
-        else r
+      if M.aliveE r.m e then
+        match M.begin e g r.m with
+        | (m1, none) => { r with m := m1 }
+        | (m1, some (a, p)) =>
+          let r2 := exec M P n { r with m := m1 } (.loop a p)
+          { r2 with m := M.finish a r2.m }
+      else r
     exec M P n r1 (.acts as)
-  | n + 1, r, .loop k =>
-    match M.next r.m k with
+  | n + 1, r, .acts (a :: as) => exec M P n (r.prim M a) (.acts as)
+  | n + 1, r, .loop a p =>
+    match M.next r.m a p with
     | .done => r
     | .fault => { r with bad := true }
-    | .call l s k' =>
+    | .call l s p' =>
       if M.aliveL r.m l then
-        let r1 : Run σ := { r with inv := fun l' s' => if l' = l ∧ s' = s then r.inv l s + 1 else r.inv l' s',
-                                   log := (l, s) :: r.log }
-        let r2 := exec M P n r1 (.acts (P.script l s (r.inv l s)))
-        exec M P n r2 (.loop k')
+        let r2 := exec M P n (r.enter l s) (.acts (P.script l s (r.inv l s)))
+        exec M P n r2 (.loop a p')
       else { r with bad := true }
 
 def State.init : State :=
